@@ -1427,6 +1427,15 @@ pub enum PathRuleType {
     Equals,
 }
 
+/// Position of a frontend declared in the configuration file when `position`
+/// is omitted. The protocol default (`command.proto`: `[default = TREE]`) and
+/// the documented lookup ("by trie specificity, not declaration order") are
+/// the tree; the derived `Default` of the generated enum is its first variant
+/// (`PRE`), which must not leak into file-declared frontends.
+fn default_rule_position() -> RulePosition {
+    RulePosition::Tree
+}
+
 #[derive(Debug, Clone, PartialEq, Eq, Hash, Serialize, Deserialize)]
 #[serde(deny_unknown_fields)]
 pub struct FileClusterFrontendConfig {
@@ -1442,7 +1451,7 @@ pub struct FileClusterFrontendConfig {
     pub certificate_chain: Option<String>,
     #[serde(default)]
     pub tls_versions: Vec<TlsVersion>,
-    #[serde(default)]
+    #[serde(default = "default_rule_position")]
     pub position: RulePosition,
     pub tags: Option<BTreeMap<String, String>>,
     /// Frontend-level redirect policy. Accepted values are `forward`
@@ -2324,7 +2333,7 @@ pub struct HttpFrontendConfig {
     pub certificate_chain: Option<Vec<String>>,
     #[serde(default)]
     pub tls_versions: Vec<TlsVersion>,
-    #[serde(default)]
+    #[serde(default = "default_rule_position")]
     pub position: RulePosition,
     pub tags: Option<BTreeMap<String, String>>,
     /// Resolved redirect policy. `None` keeps the proto-default `FORWARD`.
